@@ -222,3 +222,34 @@ MUTANTS += [
     dict(id='c19-step-ignored', props=['C19'], file=NS,
          old="rel_step=self.step, args=args,", new="rel_step=None, args=args,"),
 ]
+
+MUTANTS += [
+    dict(id='c08-percentile-axis-none', props=['C08'], file=LIM,
+         old="                p25, median, p75 = np.percentile(der, [25,50, 75], axis=0)", new="                p25, median, p75 = np.percentile(der, [25,50, 75], axis=None)"),
+    dict(id='c08-nanmin-whole-array', props=['C08'], file=LIM,
+         old="        min_errors = np.nanmin(errors, axis=0)\n", new="        min_errors = np.nanmin(errors, axis=0)\n        min_errors[:] = np.nanmin(min_errors)\n"),
+    dict(id='c08-kwds-dropped', props=['C08'], file=CORE,
+         old="            return fun(x, *args, **kwds)\n", new="            return fun(x, *args)\n"),
+    dict(id='c08-undo-f6', props=['C08'], file=LIM,
+         old="""        all_nan = np.all(np.isnan(errors), axis=0)
+        if np.any(all_nan):
+            warnings.warn('All-NaN slice encountered')
+            # only the columns without any valid estimate fall back to the first row
+            errors = errors.copy()
+            errors[0, all_nan] = np.inf
+        arg_mins = np.nanargmin(errors, axis=0)
+        min_errors = np.nanmin(errors, axis=0)
+""", new="""        try:
+            arg_mins = np.nanargmin(errors, axis=0)
+            min_errors = np.nanmin(errors, axis=0)
+        except ValueError as msg:
+            warnings.warn(str(msg))
+            return np.arange(shape[1])
+"""),
+    dict(id='c08-nom-step-shared', props=['C08'], file=SG,
+         old="    return np.log(1.718281828459045 + np.abs(x)).clip(min=1)", new="    return np.log(1.718281828459045 + np.max(np.abs(x))).clip(min=1) + 0 * np.abs(x)"),
+    dict(id='c08-median-of-all', props=['C08'], file=LIM,
+         old="        a_median = np.abs(median)\n", new="        a_median = np.abs(np.median(median)) + 0 * median\n"),
+    dict(id='c08-args-copied', props=['C08'], file=CORE,
+         old="            return fun(x, *args, **kwds)\n", new="            return fun(x, *[a * 1.0 for a in args], **kwds)\n"),
+]
